@@ -31,11 +31,10 @@ def _parse_playback(text):
     return res
 
 
-def run_one(h, repo, workdir):
+def run_one(h, repo, workdir, env_extra=None):
     name = h['name']
     t0 = time.time()
-    env = dict(os.environ, CARGO_NET_OFFLINE='true',
-               CARGO_TARGET_DIR=os.path.join(KANI_DIR, 'target_' + name))
+    env = dict(env_extra or os.environ, CARGO_NET_OFFLINE='true')
     cmd = ['cargo', 'kani', '--harness', name, '-Z', 'concrete-playback', '--concrete-playback=print']
     cmd += h.get('extra', [])
     try:
@@ -73,8 +72,8 @@ def run_one(h, repo, workdir):
         else:
             res['status'] = 'failed'
             res['message'] = 'Kani refutes: ' + '; '.join(sorted(set(failed)))
-            res['rendered'] = '\n'.join(l for l in out.split('\n') if 'Failed Checks' in l or 'Status: FAILURE' in l
-                                        or 'Description' in l and 'FAILURE' in out)[:3000]
+            fails = re.findall(r'(Check \d+: [^\n]*\n\s*- Status: FAILURE\n\s*- Description: [^\n]*\n\s*- Location: [^\n]*)', out)
+            res['rendered'] = '\n'.join(fails)[:3000] + '\n' + '\n'.join('Failed Checks: ' + f for f in sorted(set(failed)))
             pb = [x for x in _parse_playback(out) if x[0] != 'cover']
             if pb:
                 os.makedirs(workdir, exist_ok=True)
@@ -97,9 +96,78 @@ def run_one(h, repo, workdir):
     return res
 
 
+def _parse_parallel(out, names):
+    """split `cargo kani -j N --output-format terse` output into per-harness blocks"""
+    blocks = {n: '' for n in names}
+    thread_h = {}
+    cur = None
+    for line in out.split('\n'):
+        m = re.match(r'Thread (\d+): Checking harness (\S+?)\.\.\.', line)
+        if m:
+            thread_h[m.group(1)] = m.group(2).split('::')[-1]
+            cur = None
+            continue
+        m = re.match(r'Thread (\d+):\s*$', line)
+        if m:
+            cur = thread_h.get(m.group(1))
+            continue
+        if cur in blocks:
+            blocks[cur] += line + '\n'
+    return blocks
+
+
 def run_harnesses(harnesses, repo, workdir, tier):
     hs = [h for h in harnesses if tier == 'thorough' or not h.get('thorough_only')]
     if not hs:
         return []
-    with ThreadPoolExecutor(max_workers=min(4, len(hs))) as ex:
-        return list(ex.map(lambda h: run_one(h, repo, workdir), hs))
+    t0 = time.time()
+    env = dict(os.environ, CARGO_NET_OFFLINE='true')
+    lock = os.path.join(repo, 'Cargo.lock')
+    if os.path.exists(lock):
+        shutil.copy(lock, os.path.join(KANI_DIR, 'Cargo.lock'))
+    cmd = ['cargo', 'kani', '--output-format', 'terse', '-j', str(min(4, len(hs)))]
+    for h in hs:
+        cmd += ['--harness', h['name']]
+    try:
+        p = subprocess.run(cmd, cwd=KANI_DIR, env=env, stdout=subprocess.PIPE, stderr=subprocess.STDOUT, text=True,
+                           timeout=max(h.get('timeout', 1500) for h in hs))
+        out = p.stdout
+    except subprocess.TimeoutExpired:
+        return [dict(harness=h['name'], status='error', detail='timeout', checks=0, checks_ok=0, wall_s=round(time.time() - t0, 1),
+                     bound=h['bound'], label=h['label'], cmd=' '.join(cmd)) for h in hs]
+    blocks = _parse_parallel(out, [h['name'] for h in hs])
+    results = []
+    failed_hs = [h for h in hs if 'VERIFICATION:- FAILED' in blocks[h['name']]]
+    reruns = {}
+    if failed_hs:
+        def rr(h):
+            e = dict(os.environ, CARGO_TARGET_DIR=os.path.join(KANI_DIR, 'target_' + h['name']))
+            return h['name'], run_one(h, repo, workdir, env_extra=e)
+        with ThreadPoolExecutor(max_workers=min(3, len(failed_hs))) as ex:
+            reruns = dict(ex.map(rr, failed_hs))
+    for h in hs:
+        b = blocks[h['name']]
+        res = dict(harness=h['name'], bound=h['bound'], label=h['label'], cmd=' '.join(cmd), checks=0, checks_ok=0, detail='',
+                   replay_file=None, spans=[], tags=[], fn=h.get('fn'))
+        m = re.search(r'\*\* (\d+) of (\d+) failed', b)
+        if m:
+            res['checks'], res['checks_ok'] = int(m.group(2)), int(m.group(2)) - int(m.group(1))
+        vt = re.search(r'Verification Time: ([0-9.]+)s', b)
+        res['wall_s'] = float(vt.group(1)) if vt else round(time.time() - t0, 1)
+        cov = re.search(r'\*\* (\d+) of (\d+) cover properties satisfied', b)
+        if 'VERIFICATION:- SUCCESSFUL' in b:
+            if cov and int(cov.group(1)) < int(cov.group(2)):
+                res['status'], res['detail'] = 'error', 'vacuity guard: cover property unsatisfiable (no validated circuit within the bound)'
+            else:
+                res['status'] = 'ok'
+        elif 'VERIFICATION:- FAILED' in b:
+            # re-run this harness alone with concrete playback to obtain the counterexample
+            r1 = reruns[h['name']]
+            shutil.rmtree(os.path.join(KANI_DIR, 'target_' + h['name']), ignore_errors=True)
+            r1['cmd'] = ' '.join(cmd) + ' ; ' + r1.get('cmd', '')
+            res = r1
+        else:
+            res['status'] = 'error'
+            res['detail'] = 'kani gave no verdict for this harness: ' + (b[-800:] or out[-1500:])
+        results.append(res)
+    return results
